@@ -18,12 +18,13 @@ func selftest(p *propDef) int {
 	build(false)
 	defer cleanup()
 	seed := seedEnv()
-	n := 48
+	n := 96
 	type out struct {
-		i    int
-		logs [3][]byte
-		res  [3]*spec.Result
-		err  error
+		i        int
+		logs     [3][]byte
+		res      [3]*spec.Result
+		err      error
+		replayed bool
 	}
 	res := make([]out, n)
 	sem := make(chan struct{}, runtime.NumCPU())
@@ -48,10 +49,32 @@ func selftest(p *propDef) int {
 				res[i].logs[k] = b
 				res[i].res[k] = r
 			}
+			// replay fidelity: the recorded decision list, fed back, must reproduce the same event log
+			if len(s.Tasks) > 1 && res[i].res[0] != nil {
+				rs := clone(s)
+				rs.Decisions = res[i].res[0].Decisions
+				if rs.Decisions == nil {
+					rs.Decisions = []spec.Decision{}
+				}
+				lp := filepath.Join(scratch, fmt.Sprintf("log-%d-r", i))
+				r, err := runWorkerEnv(rs, lp)
+				if err != nil {
+					res[i].err = err
+					return
+				}
+				b, _ := os.ReadFile(lp)
+				os.Remove(lp)
+				if string(b) != string(res[i].logs[0]) || r.LogHash != res[i].res[0].LogHash || r.Status != res[i].res[0].Status {
+					res[i].err = fmt.Errorf("replay from the recorded decision list differs from the PRNG-driven run (log %d vs %d bytes, hash %s vs %s)", len(b), len(res[i].logs[0]), r.LogHash, res[i].res[0].LogHash)
+					return
+				}
+				res[i].replayed = true
+			}
 		}()
 	}
 	wg.Wait()
 	bad := 0
+	replays := 0
 	var events int
 	for i := range res {
 		o := res[i]
@@ -61,6 +84,9 @@ func selftest(p *propDef) int {
 			continue
 		}
 		events += len(o.logs[0]) + len(canon(o.res[0]))
+		if o.replayed {
+			replays++
+		}
 		for k := 1; k < 3; k++ {
 			if canon(o.res[k]) != canon(o.res[0]) || string(o.logs[k]) != string(o.logs[0]) || o.res[k].LogHash != o.res[0].LogHash || o.res[k].Status != o.res[0].Status ||
 				o.res[k].Steps != o.res[0].Steps || o.res[k].ConflictSig != o.res[0].ConflictSig || len(o.res[k].Decisions) != len(o.res[0].Decisions) {
@@ -74,7 +100,7 @@ func selftest(p *propDef) int {
 		fmt.Printf("selftest: %d of %d seeds NOT deterministic\n", bad, n)
 		return 2
 	}
-	fmt.Printf("selftest: %s: %d seeds x 3 repetitions (GOMAXPROCS 1/4/16, %d at a time) identical; %d bytes of event log and result compared\n", p.id, n, runtime.NumCPU(), events)
+	fmt.Printf("selftest: %s: %d seeds x 3 repetitions (GOMAXPROCS 1/4/16, %d at a time) identical; %d bytes of event log and result compared; %d multi-task runs replayed from their recorded decision lists with identical event logs\n", p.id, n, runtime.NumCPU(), events, replays)
 	return 0
 }
 
